@@ -251,7 +251,10 @@ namespace GeographicLib {
       // the mean number of iterations slightly from 1.963 to 1.954.
       tau = fabs(taup) > 70 ? taup * exp(eatanhe(T(1), es)) : taup/e2m,
       stol = tol * fmax(T(1), fabs(taup));
-    if (!(fabs(tau) < taumax)) return tau; // handles +/-inf and nan
+    // The early exit is only valid for the asymptotic guess (|taup| > 70);
+    // taup/e2m can exceed taumax for e^2 close to 1 and must be refined.
+    if (!(fabs(tau) < taumax) && !(fabs(taup) <= 70))
+      return tau; // handles +/-inf and nan
     for (int i = 0;
          i < numit ||
            GEOGRAPHICLIB_PANIC("Convergence failure in Math::tauf");
